@@ -553,6 +553,11 @@ func Run(id, tier string, seed int, workers int) int {
 	byPkg := map[string][]string{}
 	for _, co := range results {
 		for _, f := range co.res.Findings {
+			if f.Kind == "panic" && len(f.Stack) > 0 && isHarnessFunc(f.Stack[len(f.Stack)-1]) {
+				// a panic raised by the harness's own code is a defect of the machinery, never a violation
+				toolErrors = append(toolErrors, fmt.Sprintf("harness panic in %s (case %q): %s", f.Stack[len(f.Stack)-1], co.c.ID, firstLineOf(f.Msg)))
+				continue
+			}
 			if f.Kind == "panic" && (!chk.PanicViolates || (chk.PanicFilter != nil && !chk.PanicFilter(f))) {
 				continue
 			}
@@ -590,7 +595,36 @@ func Run(id, tier string, seed int, workers int) int {
 	var native map[string]nativeOutcome
 	if len(byPkg) > 0 && firstVM != nil {
 		var nerrs []string
-		native, nerrs = runNative(ld, firstVM, chk, workDir, byPkg)
+		if chk.Race {
+			// findings are replayed one per process: a race on lazily initialised package state
+			// can only be observed by the first run in a process
+			native = map[string]nativeOutcome{}
+			isFinding := map[string]bool{}
+			for _, p := range pend {
+				isFinding[p.path] = true
+			}
+			rest := map[string][]string{}
+			for dir, paths := range byPkg {
+				for _, pth := range paths {
+					if isFinding[pth] {
+						o, e := runNative(ld, firstVM, chk, workDir, map[string][]string{dir: {pth}})
+						for k, v := range o {
+							native[k] = v
+						}
+						nerrs = append(nerrs, e...)
+					} else {
+						rest[dir] = append(rest[dir], pth)
+					}
+				}
+			}
+			o, e := runNative(ld, firstVM, chk, workDir, rest)
+			for k, v := range o {
+				native[k] = v
+			}
+			nerrs = append(nerrs, e...)
+		} else {
+			native, nerrs = runNative(ld, firstVM, chk, workDir, byPkg)
+		}
 		toolErrors = append(toolErrors, nerrs...)
 	}
 	if os.Getenv("VERIF_SLOW") != "" {
@@ -676,6 +710,16 @@ func Run(id, tier string, seed int, workers int) int {
 		return 1
 	}
 	return 0
+}
+
+func isHarnessFunc(fn string) bool {
+	i := strings.LastIndex(fn, ".")
+	name := fn
+	if i >= 0 {
+		name = fn[i+1:]
+	}
+	name = strings.TrimPrefix(name, "(")
+	return strings.HasPrefix(name, "zz") || strings.HasPrefix(name, "ZZ") || strings.Contains(fn, "/zzvrt.")
 }
 
 func firstLineOf(s string) string {
